@@ -214,9 +214,9 @@ func (r *Run) Set(name string, v any) {
 	r.mu.Unlock()
 }
 
-func (r *Run) Rule(s string)        { r.rule = s }
-func (r *Run) Assume(s ...string)   { r.assumptions = append(r.assumptions, s...) }
-func (r *Run) Exhaustive(b bool)    { r.exhaustive = &b }
+func (r *Run) Rule(s string)          { r.rule = s }
+func (r *Run) Assume(s ...string)     { r.assumptions = append(r.assumptions, s...) }
+func (r *Run) Exhaustive(b bool)      { r.exhaustive = &b }
 func (r *Run) Elapsed() time.Duration { return time.Since(r.start) }
 
 // Violation records a violation with harness-computed signature sig. c is the complete case
